@@ -22,6 +22,12 @@ CHECKS = {
          "Exploration of histories over {PUBLISH(QoS2,id,DUP), PUBREL(id)} with re-deliveries and identifier reuse; reference model = set of unreleased identifiers; oracle = stream items equal the model's distinct messages and every re-delivery is still answered with PUBREC."),
  "C10": ("exploration", "3.C10", "seeded deterministic simulation: Receive Maximum histories + quiescent probe (free+1 publishes) against a wire-level counter model",
          "Exploration: R in {1..12, absent}, bursts, every failing completion kind, then at quiescence exactly `free` publishes must be accepted and one refused; plus a broker-view safety counter and a serial-order-impossibility test for QuotaExceeded."),
+ "C13": ("fault_enumeration", "3.C13", "seeded deterministic simulation with fault injection: every terminating cause (user/server DISCONNECT, EOF, read/write error, handles dropped, undecodable input) injected at random session states; connect()/authorize() outcomes",
+         "Fault enumeration by seeded search: one terminating cause per run (kind enumerated by the generator, position random over conformant histories with operations outstanding, streams open, mid-QoS 2), oracle demands the exact documented variant and that run() is still pending when no cause occurred; faults fired are counted per kind in the evidence."),
+ "C14": ("fault_enumeration", "3.C14", "seeded deterministic simulation: crash-point injection (DropContext after a random prefix of conformant/inbound histories), wake-only executor, hang detection at quiescence",
+         "Crash-point search: the context is dropped after a random prefix of every generated history, then all streams are opened and new operations started; oracle: no task left pending and un-woken, ContextExited for everything not completed before the drop, streams yield what they had and end."),
+ "C15": ("exploration", "3.C15", "seeded deterministic simulation: cancellation (drop of operation futures / streams) at random points with late acknowledgements still delivered; survivors judged by the C05/C07 oracles; quota probe",
+         "Exploration of cancellation points over concurrent workloads: run() must stay pending, surviving operations and streams must satisfy the C05/C07 oracles, and after the late acknowledgements exactly the broker-view number of free Receive Maximum slots is available."),
 }
 
 def entry(pid, v):
